@@ -57,14 +57,13 @@ def instr_oracle(prog, obs, impl):
     for i, op, o, dumps in oracles.walk(prog, obs):
         if not o['ok']:
             continue
-        objs = {v: impl.env.get(v) for v, _ in o['out']}
         out = dict(o['out'])
         try:
             if op['op'] == 'solutionc':
                 # "Add <x unit of solute>, ... to <V unit> of <solvent container>.": the volume taken from the solvent container
                 # and what each named solute gained beyond the share that came with that volume
                 new, s0, s1 = out[op['out']], dumps[op['solventv']], out[op['osolv']]
-                line = objs[op['out']].instructions
+                line = out[op['out']]['instr']
                 m = re.match(r"Add (.*) to " + AMOUNT + r" of .+\.$", line)
                 if not m:
                     fails.append((i, f"cannot read the create_solution instruction {line!r}"))
@@ -87,8 +86,7 @@ def instr_oracle(prog, obs, impl):
                         else:
                             check_amount(F(Decimal(pm.group(1))), pm.group(2), histcheck.amount_in(sd, added, b), f"{sd['name']} added by create_solution", fails, i)
             if (op['op'] == 'newc' and op.get('init')) or op['op'] == 'solution':
-                c = objs[op['out']]
-                line = c.instructions
+                line = out[op['out']]['instr']
                 d = out[op['out']]
                 m = re.match(r"Add (.*?) to a", line)
                 if m:
@@ -105,8 +103,7 @@ def instr_oracle(prog, obs, impl):
                         else:
                             check_amount(F(Decimal(pm.group(1))), pm.group(2), true, f"{sd['name']} in a new container", fails, i)
             if op['op'] == 'transfer' and 'c' in op['src'] and 'c' in op['dst']:
-                dst = objs[op['odst']]
-                line = dst.instructions.splitlines()[-1]
+                line = out[op['odst']]['instr'].splitlines()[-1]
                 am = parse_amounts(line)
                 s0, s1 = dumps[op['src']['c']], out[op['osrc']]
                 if am:
@@ -118,10 +115,9 @@ def instr_oracle(prog, obs, impl):
                     fails.append((i, f"no amount in the transfer instruction {line!r}"))
             if op['op'] in ('fill', 'dilute') and ('v' in op or 'c' in op.get('t', {})):
                 var = op['v'] if op['op'] == 'dilute' else op['t']['c']
-                c = objs[op['out']]
                 before, after = dumps[var], out[op['out']]
                 if before['cont'] != after['cont']:
-                    line = c.instructions.splitlines()[-1]
+                    line = after['instr'].splitlines()[-1]
                     am = parse_amounts(line)
                     sd = byid[op['solvent']]
                     added = after['cont'].get(sd['id'], F(0)) - before['cont'].get(sd['id'], F(0))
@@ -131,8 +127,7 @@ def instr_oracle(prog, obs, impl):
                     else:
                         fails.append((i, f"no amount in {line!r}"))
             if op['op'] == 'solfrom':
-                new = objs[op['out']]
-                line = new.instructions
+                line = out[op['out']]['instr']
                 am = parse_amounts(line)
                 s0, s1 = dumps[op['src']], out[op['osrc']]
                 n1 = out[op['out']]
@@ -355,6 +350,8 @@ def run(chk, gate, status):
                 sobs, sim = histcheck.rerun(small)
                 sf = instr_oracle(small, sobs, sim) or f
                 chk.violation(sf[0][1], {'program': small, 'failures': [list(x) for x in sf[:5]]})
+    # the same histories under other display / storage units and default densities (separate processes): the texts are read from the dumps
+    histcheck.variants(chk, [g for g, _ in hist], instr_oracle, 'C19v', limit=10 if not full else 60)
     from props import C12 as C12m
     import copy
     sub = copy.copy(chk); sub.tier = 'quick'
